@@ -92,7 +92,11 @@ def canon(text):
 
 
 def gen_layout(rng, pieces, knobs=None):
-    """-> dict(lines=[...], regions=set(), cuts=n). knobs: p_cut, comments(bool), between(bool), docs"""
+    """-> dict(lines=[...], regions=set(), cuts=n, shapes=set()). knobs: p_cut, comments(bool), between(bool).
+    Commentary stands wherever Fortran allows it: after a line that ends outside a literal (also when the line
+    started inside one: shape "comment_after_cont_lit") and as comment lines between continued lines (also between
+    the lines of a continued literal: shape "comment_in_cont_lit"). `regions` is always empty: no known defect
+    region is left for these layouts (the key is kept for the callers that sum region codes)."""
     k = {"p_cut": 0.25, "comments": True, "between": True, "max_indent": 6}
     k.update(knobs or {})
     cs, inlit = render_cs(pieces)
@@ -107,8 +111,8 @@ def gen_layout(rng, pieces, knobs=None):
             good.append(p)
             prev = p
     cuts = good
-    p_region = k.get("p_region", 0.08)   # how often to enter the two recorded defect regions
-    lines, regions = [], set()
+    p_shape = k.get("p_shape", 0.3)   # how often commentary follows / stands inside a continued literal
+    lines, regions, shapes = [], set(), set()
     indent = " " * rng.randint(0, k["max_indent"])
     prev = 0
     lead = ""
@@ -122,20 +126,20 @@ def gen_layout(rng, pieces, knobs=None):
             line += "&"
             trailing = " " * rng.choice([0, 0, 1, 3])
             comment = None
-            if k["comments"] and not inl and rng.random() < (p_region if start_inlit else 0.3):
+            if k["comments"] and not inl and rng.random() < (p_shape if start_inlit else 0.3):
                 comment = "!" + rng.choice(COMMENTS)
             line += trailing + (comment or "")
             if comment is not None and start_inlit:
-                regions.add("comment_after_cont_lit")
+                shapes.add("comment_after_cont_lit")
             lines.append(line)
             if k["between"]:
                 while rng.random() < 0.25:
-                    if rng.random() < 0.5 or (inl and rng.random() > p_region):
+                    if rng.random() < 0.5 or (inl and rng.random() > 2 * p_shape):
                         lines.append(" " * rng.choice([0, 2, 5]))
                     else:
                         lines.append(" " * rng.choice([0, 3]) + "!" + rng.choice(COMMENTS))
                         if inl:
-                            regions.add("comment_in_cont_lit")
+                            shapes.add("comment_in_cont_lit")
             # leading & is mandatory inside a literal or a token; optional next to a blank
             blank_adjacent = cs[p - 1] == " " or cs[p] == " "
             need_amp = inl or not blank_adjacent
@@ -145,13 +149,13 @@ def gen_layout(rng, pieces, knobs=None):
             start_inlit = inl
         else:
             comment = None
-            if k["comments"] and rng.random() < (p_region if start_inlit else 0.3):
+            if k["comments"] and rng.random() < (p_shape if start_inlit else 0.3):
                 comment = " " * rng.choice([0, 1, 2]) + "!" + rng.choice(COMMENTS)
                 if start_inlit:
-                    regions.add("comment_after_cont_lit")
+                    shapes.add("comment_after_cont_lit")
             lines.append(line + (comment or ""))
         prev = p
-    return {"lines": lines, "regions": regions, "cuts": len(cuts), "cs": cs}
+    return {"lines": lines, "regions": regions, "cuts": len(cuts), "cs": cs, "shapes": shapes}
 
 
 def gen_file(rng, nlog=None, knobs=None):
